@@ -2,4 +2,4 @@
 Require Import H4.HFileModel.
 Require Extraction.
 Require ExtrOcamlBasic.
-Extraction "../extract/gen/hfile_model.ml" hwrite hcreate htrunc alloc mkfs mkdd dds fend doff dlen.
+Extraction "../extract/gen/hfile_model.ml" hwrite hcreate htrunc hread hdup dfind alloc mkfs mkdd dds fend doff dlen.
